@@ -395,8 +395,8 @@ func leakHead(open string, levels, skipped int) string {
 var leakOpens = []string{"join(", "order(", "complement(join(", "join(1..2,join("}
 
 var leakTails = []string{
-	"SOURCE      x\n//\n",                                  // SOURCE without ORGANISM (66de3a0)
-	"SOURCE      x\n            y\n//\n",                  // ... over two lines
+	"SOURCE      x\n//\n",                                // SOURCE without ORGANISM (66de3a0)
+	"SOURCE      x\n            y\n//\n",                 // ... over two lines
 	"SOURCE      x\n  ORGANISM  y\n            z.\n//\n", // a good SOURCE
 	"SOURCE\n//\n",
 	"DEFINITION  a\n            b\n            c\n//\n", // no period, several lines: joined in place, retried
